@@ -83,6 +83,20 @@ def c01(tier, rng):
         out.append(case("t%d" % n[0], pre + script, list(tags) + ["w%d" % wm], **meta))
         n[0] += 1
     cf, wf, pf = connect_fields(rng), will_fields(rng), publish_fields(rng)
+    # exactly one packet per submitted request, in submission order - also when the caller drops the future between
+    # submitting the request (first poll) and the Context getting to it
+    reqs = {"pub0": "pub q=0 t=61 pl=30", "pub1": "pub q=1 t=61 pl=31", "sub": "sub f=61:1000", "unsub": "unsub f=61", "ping": "ping",
+            "disc": "disc"}
+    for dropped in reqs:
+        others = [k for k in reqs if k != "disc"]
+        evs = ["hold"]
+        for j, k in enumerate(others[:2]):
+            evs += ["start %d 0 %s" % (j, reqs[k]), "poll %d" % j]
+        evs += ["start 7 0 %s" % reqs[dropped], "poll 7", "dropop 7"]
+        for j, k in enumerate(others[2:], 2):
+            evs += ["start %d 0 %s" % (j, reqs[k]), "poll %d" % j]
+        evs += ["release"] + ["poll %d" % j for j in range(len(others))]
+        out.append(case("dropped-queued-%s" % dropped, PRE + " ; " + " ; ".join(evs), ["dropped-queued"]))
     # packets written when a session is resumed are as well formed as first transmissions (PUBLISH with DUP, PUBREL)
     for q1 in (1, 2):
         out.append(case("resume-%d" % q1, "connect sei=1000 ; deliver %s ; run ; start 0 0 pub q=%d t=61 pl=41 ; poll 0 ; start 1 0 pub q=2 t=62 pl=42 ; poll 1 ; "
@@ -316,6 +330,27 @@ def c02(tier, rng):
     add(PRE + " ; deliver e000", ["disconnect", "short0"])
     add(PRE + " ; deliver e00100", ["disconnect", "short1"])
     add(PRE + " ; deliver e0020000", ["disconnect", "long-empty"])
+    # the two-byte packets (PINGRESP, DISCONNECT / AUTH with remaining length 0) at the very end of a read that also brought
+    # other packets: seen like any other
+    for lead in (M.publish(b"t", b"x", ps=[(11, 1)]), M.puback(77), M.suback(77, [0]), M.publish(b"t", b"y" * 600, ps=[(11, 1)])):
+        add(sub_prefix() + " ; start 9 0 ping ; poll 9 ; deliver %s ; poll 9 ; pollstream 0" % hx(lead + M.pingresp()), ["tail2", "pingresp"])
+        add(sub_prefix() + " ; deliver %s ; pollstream 0" % hx(lead + bytes([0xe0, 0])), ["tail2", "disconnect"])
+        add(sub_prefix() + " ; deliver %s ; eof ; pollstream 0" % hx(lead + bytes([0xe0, 0])), ["tail2", "disconnect", "eof"])
+    # the same packets arriving in two reads, the first one ending inside the fixed header / the remaining-length field
+    # (long packets: a two-byte length), and glued behind another packet with the cut one byte into them
+    extra = []
+    for c in list(out):
+        evs = c["script"].split(" ; ")
+        if not evs[-1].startswith("deliver "):
+            continue
+        b_ = M.unhex(evs[-1][8:])
+        if len(b_) >= 130 and len(extra) < (60 if tier == "quick" else 600):
+            for cut in (1, 2, 3):
+                extra.append(case(c["id"] + "-cut%d" % cut, " ; ".join(evs[:-1] + ["deliver " + hx(b_[:cut]), "deliver " + hx(b_[cut:])]), c["tags"] + ["cut"]))
+        elif 4 <= len(b_) < 130 and "run" in evs and len(extra) < (120 if tier == "quick" else 900) and int(c["id"][1:]) % 5 == 0:
+            glue = M.pingresp() + b_
+            extra.append(case(c["id"] + "-glued", " ; ".join(evs[:-1] + ["deliver " + hx(glue[:3]), "deliver " + hx(glue[3:])]), c["tags"] + ["glued"]))
+    out += extra
     return out
 
 
